@@ -15,12 +15,15 @@ func init() { register("C16", "other", checkC16) }
 
 func checkC16(w *World, r *Result) {
 	r.Explanation = "Decides structural necessary conditions: PTH-C16a no append to CustomConstraints is reachable on the path where the select-key directive matched (internal directives never reach SQL), and unique/select-key/constraint classification all read the same comment; FLW-C16b every constant.Value text (ExactString/String) that reaches SQL text passes the double-to-single quote conversion; AGR-C16c custom-query placeholders are numbered i+1 by the range index over the ordered Inputs slice, an input is appended only for a name not seen before, and the generated Go function builds its signature and its argument list in one loop over that same slice; RE-C16 the word regexp of the table-name replacer is exactly maximal runs of \\w and the replacement is an exact map lookup leaving other words unchanged, the enum placeholder regexp has exactly two groups, REFERENCES captures one word that goes through SQLTableName; FLW-C16t a constraint is emitted for the table of the iteration that owns it, with ALTER TABLE only for texts starting with ADD. Does not decide: attribution of comments to structs in grouped declarations, exact rewriting results as strings, typing of inputs."
-	r.Rules = []string{"PTH-C16a", "FLW-C16b", "AGR-C16c", "RE-C16", "FLW-C16t"}
+	r.Rules = []string{"PTH-C16a", "FLW-C16b", "AGR-C16c", "RE-C16", "FLW-C16t", "CONST-EXACT"}
 	checkProcessComments(w, r)
 	checkQuoteConversion(w, r)
 	checkCustomQuery(w, r)
 	checkRegexFacts(w, r)
 	checkConstraintOwner(w, r)
+	if _, n := constExactRule(w, r, func(rel string) bool { return rel == "generator" }); n < 1 {
+		Undecided("CONST-EXACT: ReplaceEnums no longer prints the constant through the exact printer, or its shape changed")
+	}
 }
 
 func checkProcessComments(w *World, r *Result) {
@@ -105,10 +108,11 @@ func checkQuoteConversion(w *World, r *Result) {
 		}
 		info := fi.Pkg.TypesInfo
 		var sources []*ast.CallExpr
+		printers := exactPrinters(w)
 		ast.Inspect(fi.Decl.Body, func(x ast.Node) bool {
 			if call, ok := x.(*ast.CallExpr); ok {
 				f := fullName(calleeOf(info, call))
-				if f == "(go/constant.Value).ExactString" || f == "(go/constant.Value).String" {
+				if f == "(go/constant.Value).ExactString" || f == "(go/constant.Value).String" || printers[calleeOf(info, call)] {
 					sources = append(sources, call)
 				}
 			}
